@@ -6,7 +6,7 @@ tier="${1:-quick}"; lanes="${2:-3}"
 cd /verif
 {
   for d in seeded/*/; do
-    p=$(python3 -c "import json;print(json.load(open('$d/meta.json'))['property'])")
+    p=$(python3 -c "import json;m=json.load(open('$d/meta.json'));print(m.get('check_with') or m['property'])")
     echo "$d/patch.diff $p"
   done
   for f in mutants/*/*.diff; do
